@@ -234,7 +234,7 @@ func VerifC15Hist(n, ne int, symbolicIDs int, mode int) {
 		if first := verifrt.NondetChoice("first query member", n+1); first < n {
 			check(first, dir, verifrt.NondetChoice("first query kind", 5))
 		}
-		kind = verifrt.NondetChoice("sweep kind", 2)
+		kind = verifrt.NondetChoice("sweep kind", 3)
 	}
 	descending := verifrt.NondetChoice("sweep order", 2) == 1
 	for s := 0; s < n; s++ {
@@ -248,6 +248,75 @@ func VerifC15Hist(n, ne int, symbolicIDs int, mode int) {
 	unknown := uint64(1 << 40)
 	verifrt.Assert(rc.ReachOfComponentContainingMember(unknown, dir).Cardinality() == 0, "unknown member has empty reach")
 	verifrt.Assert(!rc.CanReach(unknown, ids[0], dir), "unknown member reaches nothing")
+}
+
+// larger fixed graphs (edges as start,end pairs): a double diamond, a chain with a cycle
+// and side entries, a layered DAG with shared descendants
+var verifC15Shapes = [][][2]int{
+	{{1, 0}, {4, 1}, {4, 2}, {5, 1}, {5, 3}, {6, 4}, {6, 5}},
+	{{0, 1}, {1, 2}, {2, 1}, {2, 3}, {4, 2}, {5, 4}, {5, 0}},
+	{{0, 1}, {0, 2}, {1, 3}, {1, 4}, {2, 4}, {2, 5}, {4, 6}, {5, 6}},
+}
+
+// VerifC15Shapes: on a fixed graph of 6-7 nodes, with a cache of capacity 1, 2, 3 or 64:
+// two arbitrary queries (any member; reach set, reach slice or can-reach), then a sweep of
+// reach-set queries over all members in either order. Every answer equals true
+// reachability - whatever the cache evicted or kept in between.
+func VerifC15Shapes(shape int) {
+	edges := verifC15Shapes[shape]
+	n := 0
+	var starts, ends []int
+	for _, e := range edges {
+		starts, ends = append(starts, e[0]), append(ends, e[1])
+		if e[0]+1 > n {
+			n = e[0] + 1
+		}
+		if e[1]+1 > n {
+			n = e[1] + 1
+		}
+	}
+	ids := verifIDs(n, false)
+	g := container.NewAdjacencyMapGraph()
+	for i := 0; i < n; i++ {
+		g.AddNode(ids[i])
+	}
+	for i := range starts {
+		g.AddEdge(ids[starts[i]], ids[ends[i]])
+	}
+	reach := verifClosure(n, starts, ends)
+	capacity := []int{1, 2, 3, 64}[verifrt.NondetChoice("cache capacity", 4)]
+	rc := NewReachabilityCache(context.Background(), g, capacity)
+	dir := verifDir()
+	check := func(m int, kind int) {
+		want := make([]bool, n)
+		for j := range want {
+			want[j] = verifReaches(reach, dir, m, j)
+		}
+		switch kind {
+		case 0:
+			verifCheckReachSet(rc.ReachOfComponentContainingMember(ids[m], dir), ids, want, "ReachOfComponentContainingMember equals true reachability")
+		case 1:
+			all := cardinality.NewBitmap64()
+			for _, p := range rc.ReachSliceOfComponentContainingMember(ids[m], dir) {
+				all.Or(p)
+			}
+			verifCheckReachSet(all, ids, want, "ReachSliceOfComponentContainingMember equals true reachability")
+		default:
+			for j := 0; j < n; j++ {
+				verifrt.Assert(rc.CanReach(ids[m], ids[j], dir) == want[j], "CanReach equals true reachability")
+			}
+		}
+	}
+	check(verifrt.NondetChoice("first query member", n), 0)
+	check(verifrt.NondetChoice("second query member", n), verifrt.NondetChoice("second query kind", 3))
+	descending := verifrt.NondetChoice("sweep order", 2) == 1
+	for s := 0; s < n; s++ {
+		m := s
+		if descending {
+			m = n - 1 - s
+		}
+		check(m, 0)
+	}
 }
 
 func VerifC15Witness() {
